@@ -3,21 +3,22 @@ import eng_xmlscan
 PID = "C06"
 LEAN_MODULE = "Hw.Props.C06"
 NS = "Hw.Props.C06."
-THEOREMS = [NS + t for t in """C06_callback_safe C06_scan_mem_safe C06_look_init_safe C06_f05a_pinned_null_deref
-C06_backend_init_safe C06_f05b_pinned_underflow C06_f05e_pinned_overread C06_f05f_bare_close_content_overrun
-C06_distances_import_bounds C06_distances_valcap_wraps C06_pinned_defects_exact C06_userdata_decode_bounds""".split()]
+THEOREMS = [NS + t for t in """C06_callback_safe C06_attr_child_content_always_legal C06_scan_mem_safe C06_look_init_safe
+C06_backend_init_safe C06_userdata_close_content_safe C06_distances_import_bounds C06_distances_valcap_exact C06_userdata_decode_bounds
+C06_f05a_pinned_null_deref C06_f05b_pinned_underflow C06_f05e_pinned_overread C06_f05f_pinned_bare_close_content_overrun
+C06_pinned_defects_exact C06_distances_valcap_pinned_wraps""".split()]
 CHECK_MODULES = ["Hw.Props.C06"]
 TRUSTED = ["libc as modelled in lean/Hw/Io/XmlScan.lean: strspn/strchr/strncmp/strcmp/strlen read byte by byte and stop at the first deciding byte; "
            "sscanf(\"<topology version=\\\"%u.%u\\\">\") takes the strlen of its input and parses with glibc's %u semantics",
            "PARTIAL: only the nolibxml scanner, backend_init, look_init and the distances array-filling loops are proved; the rest of the loader "
            "(topology-xml.c, libxml2 back end, core) is exercised by engine xmlload under ASan/UBSan/LSan and judged by the proved wfCheck oracle, not proved"]
-ASSUMPTIONS = ["the caller's buffer has at least `size` readable bytes (API contract); malloc of a huge size (negative int converted to size_t) fails cleanly",
-               "legal callback orders: any callback on any live import state in any order, except close_content without a preceding successful "
-               "get_content (F05f), and on the pinned source the classes F05a / F05e (proved to be real overruns; excluded from the verdict stream behind "
-               "VERIF_INCLUDE_F05A / F05B / F05E / F05F)"]
+ASSUMPTIONS = ["the caller's buffer has at least `size` readable bytes (API contract)",
+               "legal callback orders: any callback on any live import state in any order, except close_content without a directly preceding "
+               "get_content that returned >= 0 on that state (the one consumer that did this, hwloc__xml_import_userdata, is proved not to any more: "
+               "C06_userdata_close_content_safe), close_child on the root state, close_tag on a state without tag name; no input class is excluded"]
 MODELLED = ("modelled representation-exactly (every read/write index checked): hwloc/topology-xml-nolibxml.c import side — ignore_spaces, next_attr "
             "(incl. the in-place unescaping copy), find_child, close_tag, close_child, get_content, close_content, look_init (header skipping, sscanf "
-            "case split), backend_init (buffer case); topology-xml.c: the indexes/u64values filling loops of hwloc__xml_import_distances.  "
+            "case split), backend_init (buffer case); topology-xml.c: the indexes/u64values filling loops and the nbobjs gate of hwloc__xml_import_distances, the get_content/close_content/close_tag order of hwloc__xml_import_userdata, the base64 decoder's write guards.  "
             "Exercised, not modelled: everything else in topology-xml.c, topology-xml-libxml.c, the diff loader, the core (engine xmlload)")
 
 
